@@ -2,6 +2,7 @@ package rules
 
 import (
 	"fmt"
+	"go/constant"
 	"go/token"
 	"go/types"
 	"math/big"
@@ -360,7 +361,7 @@ func checkC01(c *Ctx) {
 	// rules 3, 4, 10: wrappers
 	methods := []string{"Zero", "One", "Add", "Subtract", "Negate", "Multiply", "Square", "Set", "SetBytes", "SetCanonicalBytes",
 		"MustSetCanonicalBytes", "Bytes", "getBytes", "ConditionalNegate", "ConditionalSelect", "Equal", "IsZero", "IsOdd", "uncheckedSetSaturated"}
-	checkRingWrappers(c, prog, s, methods, []string{"NewElementFromUint64", "BytesAreCanonical"})
+	checkRingWrappers(c, prog, s, methods, []string{"NewElementFromUint64", "NewElementFrom", "BytesAreCanonical"})
 	c.R.Floor("C01-3", 21)
 	c.R.Floor("C01-4", 6)
 	c.R.Floor("C01-10", 22)
@@ -608,9 +609,24 @@ func checkWhoWritesLimbs(c *Ctx, prog *load.Program, s ringSpec) {
 						c.R.OK(rule, key+"/"+calleeName(callee), PosStr(prog, u.Pos()), "limbs only flow into a verified fiat/helper routine")
 					case *ssa.Store:
 						// Zero(): stores of the constant 0
-						if k, isC := u.Val.(*ssa.Const); isC && k.Value != nil && k.Int64() == 0 && fn.Name() == "Zero" {
-							c.R.OK(rule, key+"/store-zero", PosStr(prog, u.Pos()), "Zero() writes 0 limbs")
-						} else {
+						// two stores are value-preserving: the constant 0 (limb by limb or as the zero array: the element 0),
+						// and a copy of the limbs of another element of the same ring
+						isZero := false
+						if k, isC := u.Val.(*ssa.Const); isC {
+							isZero = k.Value == nil || (k.Value.Kind() == constant.Int && k.Int64() == 0)
+						}
+						isCopy := false
+						if ld, isLd := u.Val.(*ssa.UnOp); isLd && ld.Op == token.MUL {
+							if src, isFA := ld.X.(*ssa.FieldAddr); isFA && src.Field == mIdx && isNamedPtr(src.X.Type(), s.ringType) {
+								isCopy = true
+							}
+						}
+						switch {
+						case isZero:
+							c.R.OK(rule, key+"/store-zero", PosStr(prog, u.Pos()), "writes 0 limbs (the element 0)")
+						case isCopy:
+							c.R.OK(rule, key+"/store-copy", PosStr(prog, u.Pos()), "copies the limbs of another element of the ring")
+						default:
 							c.R.Fail(rule, key+"/store", PosStr(prog, u.Pos()), "direct store into the limbs of a ring element")
 						}
 					default:
@@ -712,76 +728,33 @@ func derefRefsSlice(s *ssa.Slice) []ssa.Instruction {
 // setterArgJustified checks the structural justification of one call of the unchecked setter.
 func setterArgJustified(fn *ssa.Function, call *ssa.Call, kind string) (bool, string) {
 	arg := call.Common().Args[1]
+	// the limbs may be passed by address or by value: a value loaded from a local array is treated like its address at
+	// the point of the load; a value that is directly the result of a call is followed into that call
+	var at ssa.Instruction = call
+	var byValue ssa.Value
+	if _, isPtr := arg.Type().Underlying().(*types.Pointer); !isPtr {
+		if ld, ok := arg.(*ssa.UnOp); ok && ld.Op == token.MUL {
+			arg, at = ld.X, ld
+		} else {
+			byValue = arg
+		}
+	}
 	switch kind {
 	case "reduced":
 		// the argument must be the destination of a reduceSaturated call that dominates this call, or a local array
 		// that received the result of a helper which returns such a destination
-		if reducedBefore(fn, arg, call, 0) {
+		if byValue != nil {
+			if returnsReduced(byValue, 0) {
+				return true, "argument is the reduced result of a helper (value < modulus)"
+			}
+			return false, "argument of the unchecked setter is not a reduceSaturated output"
+		}
+		if reducedBefore(fn, arg, at, 0) {
 			return true, "argument is the output of reduceSaturated (value < modulus)"
 		}
 		return false, "argument of the unchecked setter is not the output of a dominating reduceSaturated"
 	case "short":
-		// arg = BytesToSaturated(&buf) where buf is a zeroed local [32]byte written only by copy(buf[32-n:], src) with
-		// n = len(src), and a dominating guard panics when n >= 32: the top byte stays 0, value < 2^248 < modulus
-		var buf *ssa.Alloc
-		for _, b := range fn.Blocks {
-			for _, in := range b.Instrs {
-				st, ok := in.(*ssa.Store)
-				if !ok || st.Addr != arg || !instrBefore(st, call) {
-					continue
-				}
-				if cc, isCall := st.Val.(*ssa.Call); isCall && cc.Common().StaticCallee() != nil && cc.Common().StaticCallee().Name() == "BytesToSaturated" && len(cc.Common().Args) == 1 {
-					buf, _ = cc.Common().Args[0].(*ssa.Alloc)
-				}
-			}
-		}
-		if buf == nil {
-			return false, "argument is not BytesToSaturated of a local buffer"
-		}
-		var lenVal ssa.Value
-		for _, r := range *buf.Referrers() {
-			switch x := r.(type) {
-			case *ssa.Slice:
-				sub, ok := x.Low.(*ssa.BinOp)
-				if !ok || sub.Op != token.SUB {
-					return false, "the buffer is sliced at an offset that is not 32 - len(src)"
-				}
-				if k, isC := sub.X.(*ssa.Const); !isC || k.Int64() != 32 {
-					return false, "the buffer is sliced at an offset that is not 32 - len(src)"
-				}
-				if lenVal != nil && lenVal != sub.Y {
-					return false, "the buffer is written at two different offsets"
-				}
-				lenVal = sub.Y
-				for _, rr := range *x.Referrers() {
-					cc, isCall := rr.(*ssa.Call)
-					if !isCall {
-						return false, "the buffer slice has a use other than copy"
-					}
-					if bi, isB := cc.Common().Value.(*ssa.Builtin); !isB || bi.Name() != "copy" || cc.Common().Args[0] != ssa.Value(x) {
-						return false, "the buffer slice has a use other than being the destination of copy"
-					}
-				}
-			case ssa.CallInstruction, *ssa.DebugRef:
-			default:
-				return false, fmt.Sprintf("the buffer is used by %T", r)
-			}
-		}
-		if lenVal == nil {
-			return false, "no write of the input into the buffer found"
-		}
-		for _, b := range fn.Blocks {
-			if ifi, ok := b.Instrs[len(b.Instrs)-1].(*ssa.If); ok {
-				if cmp, ok := ifi.Cond.(*ssa.BinOp); ok && cmp.X == lenVal && (cmp.Op.String() == ">=" || cmp.Op.String() == ">") {
-					if k, isC := cmp.Y.(*ssa.Const); isC && ((cmp.Op.String() == ">=" && k.Int64() <= 32) || (cmp.Op.String() == ">" && k.Int64() <= 31)) {
-						if _, isPanic := b.Succs[0].Instrs[len(b.Succs[0].Instrs)-1].(*ssa.Panic); isPanic && b.Succs[1].Dominates(call.Block()) {
-							return true, "input shorter than 32 bytes (guard panics otherwise) and right-aligned in a zeroed buffer, so the value is below 2^248 < modulus"
-						}
-					}
-				}
-			}
-		}
-		return false, "no dominating guard bounds the input length below 32 bytes"
+		return shortJustified(fn, arg, byValue, at, 0)
 	case "literal", "128-bit":
 		// composite literal {x, y?, 0, 0}: the two top limbs are the constant 0
 		al, ok := arg.(*ssa.Alloc)
@@ -803,6 +776,10 @@ func setterArgJustified(fn *ssa.Function, call *ssa.Call, kind string) (bool, st
 				case ssa.CallInstruction:
 					if x != ssa.CallInstruction(call) {
 						return false, "the limb array is handed to another routine before the setter"
+					}
+				case *ssa.UnOp:
+					if ssa.Instruction(x) != at {
+						return false, "the limb array is read elsewhere"
 					}
 				case *ssa.DebugRef:
 				default:
@@ -833,6 +810,119 @@ func setterArgJustified(fn *ssa.Function, call *ssa.Call, kind string) (bool, st
 		return false, "upper limbs of the literal are not the constant 0"
 	}
 	return false, "unknown justification"
+}
+
+// shortJustified: the limbs (the array arg points to at instruction at, or the value byValue) are
+// BytesToSaturated(&buf) where buf is a zeroed local [32]byte written only by copy(buf[32-n:], src) with n = len(src),
+// and a dominating guard panics when n >= 32: the top byte stays 0, value < 2^248 < modulus.
+func shortJustified(fn *ssa.Function, arg ssa.Value, byValue ssa.Value, at ssa.Instruction, depth int) (bool, string) {
+	// arg = BytesToSaturated(&buf) where buf is a zeroed local [32]byte written only by copy(buf[32-n:], src) with
+	// n = len(src), and a dominating guard panics when n >= 32: the top byte stays 0, value < 2^248 < modulus
+	var buf *ssa.Alloc
+	if cc, isCall := byValue.(*ssa.Call); isCall && cc.Common().StaticCallee() != nil && cc.Common().StaticCallee().Name() == "BytesToSaturated" && len(cc.Common().Args) == 1 {
+		buf, _ = cc.Common().Args[0].(*ssa.Alloc)
+	}
+	for _, b := range fn.Blocks {
+		for _, in := range b.Instrs {
+			st, ok := in.(*ssa.Store)
+			if !ok || byValue != nil || st.Addr != arg || !instrBefore(st, at) {
+				continue
+			}
+			if cc, isCall := st.Val.(*ssa.Call); isCall && cc.Common().StaticCallee() != nil && cc.Common().StaticCallee().Name() == "BytesToSaturated" && len(cc.Common().Args) == 1 {
+				buf, _ = cc.Common().Args[0].(*ssa.Alloc)
+			}
+		}
+	}
+	if buf == nil {
+		// or the limbs come from a module helper every return of which yields such a value
+		var src ssa.Value = byValue
+		if src == nil {
+			for _, b := range fn.Blocks {
+				for _, in := range b.Instrs {
+					if st, ok := in.(*ssa.Store); ok && st.Addr == arg && instrBefore(st, at) {
+						src = st.Val
+					}
+				}
+			}
+		}
+		idx := 0
+		if ex, isEx := src.(*ssa.Extract); isEx {
+			idx, src = ex.Index, ex.Tuple
+		}
+		if cc, isCall := src.(*ssa.Call); isCall && depth < 3 {
+			if g := cc.Common().StaticCallee(); g != nil && len(g.Blocks) > 0 && g.Pkg != nil && load.IsModulePkg(g.Pkg.Pkg.Path()) {
+				n := 0
+				for _, gb := range g.Blocks {
+					ret, isRet := gb.Instrs[len(gb.Instrs)-1].(*ssa.Return)
+					if !isRet {
+						continue
+					}
+					n++
+					if idx >= len(ret.Results) {
+						return false, "helper result index out of range"
+					}
+					w := ret.Results[idx]
+					var wp ssa.Value
+					var wv ssa.Value = w
+					var wat ssa.Instruction = ret
+					if ld, isLd := w.(*ssa.UnOp); isLd && ld.Op == token.MUL {
+						wp, wv, wat = ld.X, nil, ld
+					}
+					if ok, why := shortJustified(g, wp, wv, wat, depth+1); !ok {
+						return false, "helper " + g.Name() + ": " + why
+					}
+				}
+				if n > 0 {
+					return true, "limbs returned by " + g.Name() + ", which right-aligns an input shorter than 32 bytes in a zeroed buffer (value below 2^248 < modulus)"
+				}
+			}
+		}
+		return false, "argument is not BytesToSaturated of a local buffer"
+	}
+	var lenVal ssa.Value
+	for _, r := range *buf.Referrers() {
+		switch x := r.(type) {
+		case *ssa.Slice:
+			sub, ok := x.Low.(*ssa.BinOp)
+			if !ok || sub.Op != token.SUB {
+				return false, "the buffer is sliced at an offset that is not 32 - len(src)"
+			}
+			if k, isC := sub.X.(*ssa.Const); !isC || k.Int64() != 32 {
+				return false, "the buffer is sliced at an offset that is not 32 - len(src)"
+			}
+			if lenVal != nil && lenVal != sub.Y {
+				return false, "the buffer is written at two different offsets"
+			}
+			lenVal = sub.Y
+			for _, rr := range *x.Referrers() {
+				cc, isCall := rr.(*ssa.Call)
+				if !isCall {
+					return false, "the buffer slice has a use other than copy"
+				}
+				if bi, isB := cc.Common().Value.(*ssa.Builtin); !isB || bi.Name() != "copy" || cc.Common().Args[0] != ssa.Value(x) {
+					return false, "the buffer slice has a use other than being the destination of copy"
+				}
+			}
+		case ssa.CallInstruction, *ssa.DebugRef:
+		default:
+			return false, fmt.Sprintf("the buffer is used by %T", r)
+		}
+	}
+	if lenVal == nil {
+		return false, "no write of the input into the buffer found"
+	}
+	for _, b := range fn.Blocks {
+		if ifi, ok := b.Instrs[len(b.Instrs)-1].(*ssa.If); ok {
+			if cmp, ok := ifi.Cond.(*ssa.BinOp); ok && cmp.X == lenVal && (cmp.Op.String() == ">=" || cmp.Op.String() == ">") {
+				if k, isC := cmp.Y.(*ssa.Const); isC && ((cmp.Op.String() == ">=" && k.Int64() <= 32) || (cmp.Op.String() == ">" && k.Int64() <= 31)) {
+					if _, isPanic := b.Succs[0].Instrs[len(b.Succs[0].Instrs)-1].(*ssa.Panic); isPanic && b.Succs[1].Dominates(at.Block()) {
+						return true, "input shorter than 32 bytes (guard panics otherwise) and right-aligned in a zeroed buffer, so the value is below 2^248 < modulus"
+					}
+				}
+			}
+		}
+	}
+	return false, "no dominating guard bounds the input length below 32 bytes"
 }
 
 // instrBefore reports whether a is executed before b on every path reaching b (a dominates b).
@@ -970,6 +1060,9 @@ func checkC02(c *Ctx) {
 	c.R.Floor("C02-1", 80)
 	obs, err = limbproof.CheckUint64ToUint1(filepath.Join(s.fiatDir(prog), "voi.go"))
 	addLimb(c, "C02-1", obs, err, "fiat scalar control-word normaliser")
+	// the constant-time helpers (shared with the field package) that Scalar.Equal / IsZero / the byte conversions use
+	obs, err = limbproof.CheckHelpers(filepath.Join(prog.Dir, "internal/helpers/helpers.go"))
+	addLimb(c, "C02-8", obs, err, "helpers")
 	obs, err = limbproof.CheckReduceSaturated(s.redFile, s.modulus)
 	addLimb(c, "C02-7", obs, err, "scalar reduceSaturated")
 	c.R.Floor("C02-7", 5)
@@ -979,7 +1072,7 @@ func checkC02(c *Ctx) {
 
 	methods := []string{"Zero", "One", "Add", "Subtract", "Negate", "Multiply", "Square", "Set", "SetBytes", "SetCanonicalBytes",
 		"Bytes", "getBytes", "ConditionalNegate", "ConditionalSelect", "Equal", "IsZero", "uncheckedSetSaturated"}
-	checkRingWrappers(c, prog, s, methods, []string{"NewScalarFromUint64"})
+	checkRingWrappers(c, prog, s, methods, []string{"NewScalarFromUint64", "NewScalarFrom"})
 	c.R.Floor("C02-3", 18)
 	c.R.Floor("C02-4", 6)
 	c.R.Floor("C02-10", 22)
